@@ -29,7 +29,9 @@ What is enumerated (plan(); every part is complete for its alphabet and depth, t
     layout, layout-deep, layout-zero
                  the message formats on ansi/plain/section with clock advances {0, 200 ticks} (throttled / drawn)
                  or none, all operations, depth 3..5 (thorough 4..7)
-    timing       start/advance/set_progress(max)/display/finish x all clock advances, depth 4 (thorough 6)
+    timing, timing-b
+                 start/advance/set_progress(max)/display/finish x all clock advances, depth 4 (thorough 6 for
+                 max 3, 5 for max 10 and the unknown max)
     timing-elapsed (thorough) the same on formats with %elapsed%, exact clock differences, depth 4
     ramp         deterministic long histories: every set_progress(s), s in 0..max+2, as a one-operation history;
                  start, advance(k) ... past the maximum, finish for k in {1,3} x each clock advance; three-operation
@@ -638,7 +640,7 @@ def run_item(item):
     nt = spec.nontrivial
     return dict(idx=item["idx"], part=item["part"], cfg=cfg_id(cfg), states=r.states, transitions=r.transitions,
                 max_depth=r.max_depth + len(prefix), cut=r.cut, capped=len(r.violations) >= 40, violations=vs,
-                samples=[[list(o) for o in prefix] + s for s in r.samples[:1]],
+                samples=[[list(o) for o in prefix] + s for s in r.samples[-1:]],
                 nontrivial=nt if len(nt) <= 200000 else None, nontrivial_n=len(nt), frames=spec.frames_checked,
                 keys=r.keys if item.get("want_keys") else None)
 
@@ -771,17 +773,21 @@ def plan(tier, seed):
     lay = [C(m, w, f, o, 0.1) for f in ("msg", "two") for o in OUTS3 for (m, w) in [(3, 4), (0, 4), (10, 28)]]
     part("layout", "message formats x {ansi,plain,section}; all operations x clock advances {0,200} ticks, min 0.1", lay,
          clocks=(0, 200), depth=4 if T else 3)
-    lay2 = [C(3, 4, f, o, 0.1) for f in ("msg", "two") for o in OUTS3]
-    part("layout-deep", "message formats x {ansi,plain,section} at max 3 width 4; all operations x clock advances {0,200} ticks",
+    lay2 = [C(3, 4, f, o, 0.1) for f in ("msg", "two") for o in OUTS3
+            if T or (f, o) in (("msg", "ansi"), ("msg", "section"), ("two", "ansi"), ("two", "plain"))]
+    part("layout-deep", "message formats x {ansi,plain,section} at max 3 width 4 (quick: without message/plain and two-line/"
+                        "section); all operations x clock advances {0,200} ticks",
          lay2, clocks=(0, 200), depth=5 if T else 4)
     lay0 = [C(m, 4, f, o, 0) for f in ("msg", "two") for o in OUTS3 for m in (3, 0)]
     part("layout-zero", "message formats, throttle off, no clock advance: all operations", lay0, clocks=(0,),
          depth=7 if T else 5)
     # ---- timing: the progress operations x every clock advance
-    tim = [C(m, 4, "default", o, 0.1) for o in ("ansi", "plain") for m in (3, 10, 0)] + [C(3, 4, "default", "ansi", 0),
-                                                                                       C(3, 4, "default", "section", 0.1)]
-    part("timing", "start/advance(1)/advance(3)/set_progress(max)/display/finish x all clock advances", tim,
-         opset="progress", depth=6 if T else 4)
+    what = "start/advance(1)/advance(3)/set_progress(max)/display/finish x all clock advances; "
+    tim3 = [C(3, 4, "default", "ansi", 0.1), C(3, 4, "default", "plain", 0.1), C(3, 4, "default", "ansi", 0),
+            C(3, 4, "default", "section", 0.1)]
+    part("timing", what + "max 3 on ansi (min 0.1 and 0), plain, section", tim3, opset="progress", depth=6 if T else 4)
+    timb = [C(m, 4, "default", o, 0.1) for o in ("ansi", "plain") for m in (10, 0) if T or (o, m) in (("ansi", 10), ("plain", 0))]
+    part("timing-b", what + "max 10 and unknown max on ansi and plain (quick: ansi/max 10 and plain/unknown max)", timb, opset="progress", depth=5 if T else 4)
     if T:
         part("timing-elapsed", "formats with %elapsed% (exact clock differences): progress operations x all clock advances",
              [C(3, 4, "default", o, 0.1, v) for v in (1, 2) for o in ("ansi", "plain")], opset="progress", depth=4)
@@ -874,7 +880,7 @@ def main():
         else:
             nt_sum += r["nontrivial_n"]
             exact = exact and r["part"] == "ramp"
-        if r["samples"] and a["shares"] % 61 == 1:
+        if r["samples"] and a["shares"] == 1:
             rep.sample({"part": r["part"], "cfg": r["cfg"], "history": r["samples"][0]})
     # ---- cross-check verdicts (an inconsistency is an engine error, not a finding about clikit)
     for (name, cfg, clocks, opset, depth) in xc:
